@@ -292,7 +292,7 @@ func TestC09KeySets(t *testing.T) {
 				return
 			}
 			rec.Violation("keyset", msg, c)
-			rt.Fatalf("%s", msg)
+			rt.Fatalf("property violated (details in the replay file)")
 		}
 	})
 }
